@@ -26,7 +26,9 @@ for d in dirs:
     except Exception as e:
         meta = {}
     prop = meta.get("property") or name.split("-")[0]
-    extra = meta.get("also_check", [])
+    extra = list(meta.get("also_check", []))
+    if isinstance(prop, (list, tuple)):
+        prop, extra = prop[0], list(prop[1:]) + extra
     rec["property"] = prop
     subprocess.run(["git", "-C", wt, "reset", "-q", "--hard", "HEAD"]); subprocess.run(["git", "-C", wt, "clean", "-fdq"])
     p = subprocess.run(["git", "-C", wt, "apply", d + "/patch.diff"], capture_output=True, text=True)
